@@ -50,15 +50,21 @@ Definition agree0 {A B} (eqb : A -> B -> bool) (r : res A) (o : outcome B) : boo
 
 Definition span_eqb (a b : nat * nat) := Nat.eqb (fst a) (fst b) && Nat.eqb (snd a) (snd b).
 
+Inductive cpop := CAdd (b : bool) (id : Z) | CTouchP (t : Z) | CTouchT (t : Z).
+
 Inductive case :=
-| CSearch (U : list node) (l : lit) (b : nat) (obs : outcome (nat * nat))
+| CSearch (U : list node) (l : lit) (b : Z) (obs : outcome (nat * nat))
 | CHeight (U : list node) (l : lit) (obs : outcome Z)
 | CSetSlice (U : list node) (l : lit) (b e : nat) (v : lit) (obs : outcome lit)
+| CSetItem (U : list node) (l : lit) (i : Z) (v : Z * Z) (obs : outcome lit)
+| CUnch (U : list node) (before after : lit)
 | CGen (U : list node) (ps : pset) (g : gexpr) (t : option Z) (ds : list draw) (obs : outcome lit)
 | COp (U : list node) (ps : pset) (oc : opcall) (inputs : list lit) (ds : list draw) (obs : outcome (list lit))
 | CLim (U : list node) (ps : pset) (k : lkey) (maxv : Z) (oc : opcall) (inputs : list lit)
        (ds : list draw) (obs : outcome (list lit))
 | CWt (U : list node) (pairs : list (Z * Z)) (e : Z) (l : lit) (obs_complete obs_typed : bool)
+| CPsetSeq (U : list node) (pairs : list (Z * Z)) (ops : list cpop)
+           (oprims oterms : list (Z * list Z)) (tc pc : Z)
 | CPset (U : list node) (pairs : list (Z * Z)) (ops : list (bool * Z))
         (oprims oterms : list (Z * list Z)) (tc pc : Z).
 
@@ -73,12 +79,27 @@ Definition pset_case (U : list node) (pairs : list (Z * Z)) (ops : list (bool * 
   tbl_eqb (s_prims s) (mktbl U oprims) && tbl_eqb (s_terms s) (mktbl U oterms) &&
   Z.eqb (s_tc s) tc && Z.eqb (s_pc s) pc.
 
+Definition pset_seq_case (U : list node) (pairs : list (Z * Z)) (ops : list cpop)
+           (oprims oterms : list (Z * list Z)) (tc pc : Z) : bool :=
+  let s := run_pops (sub_of pairs)
+             (map (fun o => match o with
+                            | CAdd b i => PAdd b (nth (Z.to_nat i) U dummy)
+                            | CTouchP t => PTouchP (Z.to_N t)
+                            | CTouchT t => PTouchT (Z.to_N t)
+                            end) ops) in
+  tbl_eqb (s_prims s) (mktbl U oprims) && tbl_eqb (s_terms s) (mktbl U oterms) &&
+  Z.eqb (s_tc s) tc && Z.eqb (s_pc s) pc.
+
 Definition check (c : case) : bool :=
   match c with
-  | CSearch U l b obs => agree0 span_eqb (search_subtree (mk U l) b) obs
+  | CSearch U l b obs => agree0 span_eqb (search_subtree_py (mk U l) b) obs
   | CHeight U l obs => agree0 Z.eqb (height (mk U l)) obs
   | CSetSlice U l b e v obs =>
       agree0 (fun a o => nodes_eqb a (mk U o)) (set_slice (mk U l) b e (mk U v)) obs
+  | CSetItem U l i v obs =>
+      agree0 (fun a o => nodes_eqb a (mk U o)) (set_item_py (mk U l) i (mk1 U v)) obs
+  (* a tree object that was not an argument of the call is unchanged *)
+  | CUnch U a b => nodes_eqb (mk U a) (mk U b)
   | CGen U ps g t ds obs =>
       agree (fun a o => nodes_eqb a (mk U o)) (gen_expr ps g (oty t) ds) obs
   | COp U ps oc inputs ds obs =>
@@ -90,5 +111,6 @@ Definition check (c : case) : bool :=
      against the harness's independent checker *)
   | CWt U pairs e l oc ot =>
       Bool.eqb (complete (mk U l)) oc && Bool.eqb (wt_list (sub_of pairs) (Z.to_N e) (mk U l)) ot
+  | CPsetSeq U pairs ops oprims oterms tc pc => pset_seq_case U pairs ops oprims oterms tc pc
   | CPset U pairs ops oprims oterms tc pc => pset_case U pairs ops oprims oterms tc pc
   end.
